@@ -335,7 +335,7 @@ fn judge(w: &mut World, starts: &[(usize, bool, u64)]) -> Snapshot {
         let live_any = bc.live_cells(&w.pool[*sid], *is_lock, 0, *number);
         let got: Vec<_> = indexed_cells(&net, &w.pool[*sid], *is_lock).into_iter().filter(|c| c.0 <= *number).collect();
         let missing: Vec<_> = expect.iter().filter(|c| !got.contains(c)).map(|c| (c.0, c.1, c.2)).collect();
-        let phantom: Vec<_> = got.iter().filter(|c| !live_any.contains(c)).map(|c| (c.0, c.1, c.2)).collect();
+        let phantom: Vec<_> = got.iter().filter(|c| c.0 > from && !live_any.contains(c)).map(|c| (c.0, c.1, c.2)).collect();
         if !missing.is_empty() || !phantom.is_empty() {
             problems.push(format!("[C08-activity-lost-after-crash] script {} ({}) is reported as filtered up to {} but its index misses {:?} and has extra {:?}", sid + 1, if *is_lock { "lock" } else { "type" }, number, missing, phantom));
         }
